@@ -131,6 +131,10 @@ func runC03(c *Ctx) {
 	// escaped patterns (the C18 rules) are necessary conditions of "the static route configured for the To host"
 	c18Precedence(c)
 	c18Pattern(c)
+	c18Table(c)
+	c18NextHopPort(c)
+	// the host table behind "resolves to" (shared with C13)
+	c13AliasTable(c)
 }
 
 func c03HopChain(c *Ctx, f *ssa.Function) {
@@ -407,6 +411,7 @@ func (w *World) checkPortAccessor(c *Ctx, rule, label string, fn *ssa.Function, 
 func c03URIDefaults(c *Ctx) {
 	w := c.w
 	rule := "uri-defaults"
+	ruleNumberParsing(c, rule, 1, "parseHostPort")
 	ruleKVFind(c, rule, "(*SIPURI).GetParameter")
 	if gt := c.fn(rule, "(*SIPURI).GetTransport"); gt != nil {
 		gps := w.callsIn(gt, "(*SIPURI).GetParameter")
